@@ -7,7 +7,8 @@ from .C03 import CFGS
 class Prop(PropBase):
     ID = "C04"
     LEAN_MODULES = ["Tpp.Props.C04"]
-    REQUIRED = ["Tpp.Props.C04." + n for n in ("C04_same_canvas_silent", "C04_ops_exact", "C04_each_once", "C04_wire_exact")] + ["Tpp.draw_loop"]
+    REQUIRED = ["Tpp.Props.C04." + n for n in ("C04_same_canvas_silent", "C04_ops_exact", "C04_each_once", "C04_wire_exact",
+                                                "C04_wire_cells_any_size", "drawOps_elements")] + ["Tpp.draw_loop"]
     RULE = ("the C03 frame sequences (random edits, reverts, repeated draws, size changes) and every single-cell edit of a "
             "4x3 canvas; for every draw the oracle counts the glyphs Ref.VT receives and compares their positions, order "
             "and cells with the cells whose element differs (library inequality) from the previously drawn frame, or from "
